@@ -273,7 +273,7 @@ def generate(tier, cov, procs=None, files=None):
     tdir = c22_gen.test_dir()
 
     def size(f):
-        return (len(c22_gen.generated_text(f)) if f in c22_gen.GENERATED
+        return (len(c22_gen.generated_text(f)) if c22_gen.is_generated(f)
                 else os.path.getsize(os.path.join(tdir, f)))
     files = sorted(files, key=lambda f: (-size(f), f))
     jobs = [(f, par["maxlen"], par["nsample"], core.seed(), (False, True),
